@@ -506,6 +506,10 @@ func (a *Authenticator) unpack(buf []byte, pos int) error {
 	cipherTextLen := binary.BigEndian.Uint16(buf[pos+2:])
 	pos += 4
 
+	if len(buf)-pos < int(nonceLen)+int(cipherTextLen) {
+		return errUnexpectedExtHdrLen
+	}
+
 	nonce := make([]byte, nonceLen)
 	n := copy(nonce, buf[pos:])
 	a.Nonce = nonce
